@@ -686,11 +686,11 @@ func run(c *core.Ctx) {
 		}
 	}
 	// (ii) histories: BFS over operation sequences with canonical-state deduplication
-	depth := 2
+	depth := 3
 	if c.Tier == core.Thorough {
-		depth = 3
+		depth = 4
 	}
-	srcs := []string{"srt-lf", "srt-bom-noindex-eofblank", "vtt-full", "ssa-small", "ttml-small", "stl-open-25-2", "testdata/example-in.srt", "testdata/example-in.vtt", "testdata/example-in.ttml", "testdata/example-in.ssa", "testdata/example-opn-in.stl"}
+	srcs := []string{"ttml-framerate-24", "srt-lf", "srt-bom-noindex-eofblank", "vtt-full", "ssa-small", "ttml-small", "stl-open-25-2", "testdata/example-in.srt", "testdata/example-in.vtt", "testdata/example-in.ttml", "testdata/example-in.ssa", "testdata/example-opn-in.stl"}
 	for _, d := range docs {
 		use := false
 		for _, n := range srcs {
@@ -888,8 +888,8 @@ func init() {
 		ID: "C07", Level: "model_checking",
 		Rule: "(i) every readable corpus document x every destination extension through OpenFile + Write on real files (plus upper/mixed-case extensions and invalid extensions); (ii) explicit-state search: states = canonical cue lists reached from a source document by operation sequences over an 11-letter alphabet (sync +-1.5s / -inf, fragment 700ms / 2s, unfragment, merge, optimize, 2 linear corrections, order), deduplicated; every transition executed by the real operation and compared with the composed reference specifications of C09-C15; every reached state written to all five writers and read back; (iii) the CLI binary built from the tree: every (source, destination) pair under convert, every other sub-command on a rotation of pairs, output compared byte for byte with the library's for the same arguments, plus error exits. Oracle for a conversion: same number of cues in the same order, start/end truncated to the destination resolution (ms; cs for SSA; frame for STL), same text with white space disregarded; ErrNoSubtitlesToWrite for an empty list, ErrInvalidExtension for an unknown extension",
 		Scope: map[core.Tier]string{
-			core.Quick:    "all valid corpus documents x 6 destinations; 11 source documents x all operation sequences of length <=2 (133 sequences, deduplicated) x 5 writers; CLI: convert on all pairs, other sub-commands on a quarter of the pairs",
-			core.Thorough: "operation sequences of length <=3; CLI all sub-commands on all pairs",
+			core.Quick:    "all valid corpus documents x 6 destinations; source documents of every format x all operation sequences of length <=3 (1464 sequences, deduplicated by canonical state) x 5 writers; CLI: convert on all pairs, other sub-commands on a quarter of the pairs",
+			core.Thorough: "operation sequences of length <=4 (the property's own bound); CLI all sub-commands on all pairs",
 		},
 		Assumptions: []string{"Go toolchain and standard library", "the source reader is trusted here (its fidelity is C01-C06)", "text compared with ALL white space removed (weaker than 'inter-run white space disregarded', never stronger)", "preconditions enforced by the generator: non-negative times < 100h (< 24h for STL), text representable in the destination (conservative per-destination predicate)"},
 		Plain:       run, Replay: replay,
